@@ -364,7 +364,7 @@ def shard(ctx: Ctx):
     _PRISTINE = Pristine()          # forked before this process has parsed anything
     try:
         sizes = gen.Sizes(tables=3, columns=3, indexes=1, enums=1, items=2, refs=3, groups=1, stickies=1, props=2)
-        hyp_run(ctx, 'histories', histories(c01.strict_features(), sizes), lambda c: evaluate(c, ctx), 14 if quick else 500)
+        hyp_run(ctx, 'histories', histories(c01.strict_features(), sizes), lambda c: evaluate(c, ctx), 14 if quick else 150)
     finally:
         _PRISTINE.close()
         _PRISTINE = None
